@@ -172,6 +172,23 @@ def _sweep_one(arg):
         f.seek(off)
         f.write(bytes([b[0] ^ (1 << bit)]))
     out = {"idx": idx, "image": n, "kind": kind, "region": region, "off": off, "bit": bit}
+    if kind == "bbitmap" and region == "bits" and (b[0] >> bit) & 1:
+        # is this the bit of a bitmap / inode-table block of a BLOCK_UNINIT group, kept in the
+        # bitmap of another, initialised group (flex_bg)?  libext2fs re-marks those after loading.
+        try:
+            with I.Image(src) as im:
+                gds = im.group_descs()
+                for g, gd in enumerate(gds):
+                    if gd.block_bitmap * im.bs <= off < (gd.block_bitmap + 1) * im.bs:
+                        blk = im.group_first_block(g) + ((off - gd.block_bitmap * im.bs) * 8 + bit) * im.ratio
+                        for h, hd in enumerate(gds):
+                            if h != g and (hd.flags & I.BG_BLOCK_UNINIT) and not (gd.flags & I.BG_BLOCK_UNINIT) and \
+                                    (blk in (hd.block_bitmap, hd.inode_bitmap) or
+                                     hd.inode_table <= blk < hd.inode_table + im.itable_blocks()):
+                                out["uninit_table_bit"] = h
+                        break
+        except I.FormatError:
+            pass
     try:
         r = run.run([e2fsck, "-fn", img], env=env, timeout=180)
         out["fsck_rc"] = r.rc
@@ -431,7 +448,9 @@ def main(tier, seed, replay=None, scale=1.0):
             case = {"part": "b", "pos_index": r["idx"], "image": r["image"], "kind": r["kind"],
                     "region": r["region"], "offset": r["off"], "bit": r["bit"]}
             if r["fsck_rc"] == 0:
-                rep.violation("C14b e2fsck-fn-accepts %s %s" % (r["kind"], r["region"]),
+                rep.violation("C14b e2fsck-fn-accepts %s %s" % (r["kind"], r["region"]) +
+                              (" (cleared bit of a BLOCK_UNINIT group's table block in another group's bitmap)"
+                               if r.get("uninit_table_bit") is not None else ""),
                               "bit %d of byte %d (%s %s) of %s flipped: e2fsck -fn exits 0" %
                               (r["bit"], r["off"], r["kind"], r["region"], r["image"]), replay=case)
             if r["probe"] == "0":
